@@ -297,7 +297,49 @@ func checkC14(w *World) {
 				})
 			}
 		}
-		ok := len(stdoutCalls) == 1 && badFprint == "" && !inLoopChain
+		// several print sites are fine when no execution reaches two of them (one per mutually exclusive branch)
+		exclusive := len(stdoutCalls) >= 1
+		if len(stdoutCalls) > 1 {
+			same := true
+			for _, c := range stdoutCalls {
+				if c.Parent() != stdoutCalls[0].Parent() {
+					same = false
+				}
+			}
+			if !same {
+				exclusive = false
+			} else {
+				target := stdoutCalls[0].Parent()
+				for i, a := range stdoutCalls {
+					for j, b := range stdoutCalls {
+						if i == j {
+							continue
+						}
+						ab, bb := a.Block(), b.Block()
+						// b can run after a
+						if ab == bb || blockReachesStrict(ab, bb) {
+							exclusive = false
+						}
+					}
+				}
+				// and the function that prints is not called from a loop of the worker
+				for g := range closure {
+					loops := loopBlocks(g)
+					allInstrs(g, func(in ssa.Instruction) {
+						if c, ok := in.(*ssa.Call); ok && loops[c.Block()] {
+							if sc := staticCallee(c); sc != nil {
+								for h := range staticReach(sc, func(x *ssa.Function) bool { return fnPkgKey(x) == "xsel" }) {
+									if h == target {
+										inLoopChain = true
+									}
+								}
+							}
+						}
+					})
+				}
+			}
+		}
+		ok := exclusive && badFprint == "" && !inLoopChain
 		w.check(P, "R14.3", "worker "+wf.Name()+": one write to standard output per file", wf.Pos(), ok, fmt.Sprintf("%d stdout writes reachable; problems: %s; reached from a loop: %v", len(stdoutCalls), orNone(badFprint), inLoopChain))
 	}
 	w.floor(P, "R14.3", 2)
@@ -451,6 +493,25 @@ func isGlobalLoad(v ssa.Value, pkg, name string) bool {
 func reaches(a, b *ssa.BasicBlock) bool {
 	seen := map[*ssa.BasicBlock]bool{}
 	stack := []*ssa.BasicBlock{a}
+	for len(stack) > 0 {
+		x := stack[len(stack)-1]
+		stack = stack[:len(stack)-1]
+		if x == b {
+			return true
+		}
+		if seen[x] {
+			continue
+		}
+		seen[x] = true
+		stack = append(stack, x.Succs...)
+	}
+	return false
+}
+
+// blockReachesStrict: there is a path of at least one edge from a to b.
+func blockReachesStrict(a, b *ssa.BasicBlock) bool {
+	seen := map[*ssa.BasicBlock]bool{}
+	stack := append([]*ssa.BasicBlock{}, a.Succs...)
 	for len(stack) > 0 {
 		x := stack[len(stack)-1]
 		stack = stack[:len(stack)-1]
